@@ -803,6 +803,33 @@ def check_compute_order(ctx, rule="TAB-compute-order"):
       it = it.value
     return unparse(it).endswith("_ORDERED_STYLE_PROPS")
   ok = len(loops) == 1 and in_order(loops[0].iter) and "BY_STYLE_PROP" in unparse(loops[0]) and ".compute(" in unparse(loops[0])
+  if not ok:
+    # another shape (a precomputed table of (property, processor) pairs, an early return ...): decided by interpretation - with every
+    # processor's compute() replaced by a recorder, the calls made for the full set of properties follow the order of the tuple
+    from .minieval import MiniEval, Node
+    from ..consteval import Raised
+    sp_ = ix.cls("ttconv.isd:StyleProcessors")
+    seen_ = []
+    hooks_ = {}
+    for nm_, pc_ in sp_.nested.items():
+      if "compute" in pc_.methods:
+        hooks_[pc_.methods["compute"].qualname] = (lambda *a_, _n=nm_: seen_.append(_n))
+    props_cls = ix.cls("ttconv.style_properties:StyleProperties")
+    all_props = [props_cls.nested[x_] for x_ in props_cls.nested]
+    try:
+      MiniEval(ix, func_hooks=hooks_).call(cs, [set(all_props) if False else list(all_props), Node("P", "parent", ()), Node("Span", "elem", ())])
+      ok = seen_ == [x_ for x_ in order if x_ in seen_] and set(seen_) == set(order)
+      if not ok:
+        ctx.bad(rule, f"{cs.qualname}|iterates _ORDERED_STYLE_PROPS in order", ctx.where(cs.module, cs.node),
+                f"interpreted with every compute() replaced by a recorder and all properties to be computed, _compute_styles calls {seen_} - not the order of ISD._ORDERED_STYLE_PROPS {order}: "
+                "a property is computed before one it reads, or not at all")
+        return
+    except Raised:
+      ctx.bad(rule, f"{cs.qualname}|iterates _ORDERED_STYLE_PROPS in order", ctx.where(cs.module, cs.node), "interpreted with every compute() replaced by a recorder, _compute_styles raises")
+      return
+    except NotConst as ex_:
+      ctx.undecide(rule, f"{cs.qualname}: neither a single in-order loop over the tuple nor in the interpreted subset ({ex_})")
+      return
   ctx.check(ok, rule, f"{cs.qualname}|iterates _ORDERED_STYLE_PROPS in order", ctx.where(cs.module, cs.node), "single in-order loop",
             "_compute_styles no longer iterates ISD._ORDERED_STYLE_PROPS in order (sorted/reversed/other container)")
   return len(reads)
